@@ -57,6 +57,10 @@ CHECKS = {
     'C14': (MC[0], MC[1], 'every history of declarations / constructions / collections / swaps / removals '
             '(every subset) up to the completed depth; list model of the order decides accept/refuse',
             'DESIGN.md 2/C14'),
+    'C15': (EX[0], EX[1] + ' + explicit-state BFS over the MDD manager',
+            'bdd_to_mdd over bit groupings x integer orders x bit orders x held sets, evaluated on every '
+            'integer assignment; MDD algebra over all functions of domains (3,2) and (2,3,2); BFS over MDD '
+            'histories with exact-count oracle', 'DESIGN.md 2/C15'),
     'C17': ('fault_enumeration', 'fault enumeration over explicit-state exploration: every rejected call of '
             'the menu injected in every state of a BFS of valid histories, followed by invariant '
             'check and differential continuation',
